@@ -184,6 +184,10 @@ Definition read_string (vt : option tyc) (lst : option (larm * lpay)) (j5 : opti
                               fkrules)
             end)).
 
+(* the schema name of a message: its path inside the package with '.' replaced by '_'
+   (a message Foo.Bar nested in Foo is the schema Foo_Bar) *)
+Definition under (n : str) : str := map (fun c => if c =? 46 then 95 else c) n.
+
 (* ---- buildSchema: one field type from its annotations ---------------------- *)
 Definition read_field (env : enum_env) (k : pkind) (vt : option tyc) (lst : option (larm * lpay))
            (j5 : option j5ext) (key : option keyext) : outcome fty :=
@@ -228,8 +232,8 @@ Definition read_field (env : enum_env) (k : pkind) (vt : option tyc) (lst : opti
       | _ => Ok (TAny false [] (get_list LAny lst))
       end
   (* buildMessageFieldSchema: (buf.validate.field) is not looked at for objects and oneofs *)
-  | KdMsgObject n => Ok (TObject n (match j5 with Some (XObject fl) => fl | _ => false end) None)
-  | KdMsgOneof n => Ok (TOneof n false (get_list LOneof lst))
+  | KdMsgObject n => Ok (TObject (under n) (match j5 with Some (XObject fl) => fl | _ => false end) None)
+  | KdMsgOneof n => Ok (TOneof (under n) false (get_list LOneof lst))
   | KdMapEntry _ | KdOther => Err "field kind outside the model"
   end.
 
@@ -343,8 +347,8 @@ Definition norm_fty (env : enum_env) (t : fty) : fty :=
   | TKey f e l => TKey f (match e with Some e => Some (norm_entity e) | None => None end) l
   | TTimestamp r l => TTimestamp (match r with Some r => Some (norm_ts r) | None => None end) l
   (* rules messages without content: present = absent *)
-  | TObject n fl (Some (OBR None None)) => TObject n fl None
-  | TOneof n _ l => TOneof n false l
+  | TObject n fl r => TObject (under n) fl (match r with Some (OBR None None) => None | _ => r end)
+  | TOneof n _ l => TOneof (under n) false l
   | t => t
   end.
 
@@ -476,3 +480,13 @@ Definition read_root (env : enum_env) (o : root_out) : outcome rroot :=
 
 (* the fragment at root level: the description survives commentDescription, the properties lie in rt_ok *)
 Definition rt_root (d : root_decl) : bool := desc_plain (rd_desc d) && forallb rt_ok (rd_props d).
+
+(* the declared schema of an object's properties / of a root schema, from the declaration alone *)
+Fixpoint norm_props_from (env : enum_env) (idx : N) (ds : list prop) : list rprop :=
+  match ds with
+  | [] => []
+  | d :: r => norm_prop env idx d :: norm_props_from env (idx + 1)%N r
+  end.
+Definition norm_object (env : enum_env) (ds : list prop) : list rprop := norm_props_from env 0%N ds.
+Definition norm_root (env : enum_env) (d : root_decl) : rroot :=
+  RR (rd_kind d) (rd_name d) (rd_desc d) (norm_object env (rd_props d)).
